@@ -1407,7 +1407,12 @@ func c10FirstLevel(c *Ctx, w *prove.World, fle, fld *wcodec) {
 			}
 		}
 		if !found {
-			nd(encOpaque, padKey, fle.pos, "no padding loop recognised")
+			if pos, why := c10RecycledSource(fle.fn, nameLen); why != "" {
+				// positively observed: the source bytes after the name are not written here
+				r.Fail("firstlevel", padKey, c.P.Rel(pos), why)
+			} else {
+				nd(encOpaque, padKey, fle.pos, "no padding loop recognised")
+			}
 		}
 	}
 	// scope separator: the constant emitted immediately before the ScopeID bytes
